@@ -374,3 +374,21 @@ def run_case(c):
     return {'violations': viol, 'counters': counters, 'nontrivial': applied and len(recvs) > 0,
             'sample': {'case': {k: v for k, v in c.items() if k != 'hex' or len(str(v)) < 60}, 'status': r.status, 'first_connection': verdict, 'recv_events': len(recvs), 'timeouts': n_timeouts, 'cpu': round(r.cpu, 2)},
             'sample_kind': c['T'] + c['op']}
+
+
+def extra_evidence(results):
+    """What the monitors saw, per transcript and operator: outcomes, receive events, timeouts."""
+    by = {}
+    for r in results:
+        smp = r.get('sample') or {}
+        c = r.get('case') or {}
+        k = '%s/%s' % (c.get('T'), c.get('op'))
+        d = by.setdefault(k, {'cases': 0, 'status': {}, 'first_connection': {}, 'recv_events': 0, 'timeouts': 0})
+        d['cases'] += 1
+        st = str(smp.get('status'))
+        d['status'][st] = d['status'].get(st, 0) + 1
+        fc = str(smp.get('first_connection'))
+        d['first_connection'][fc] = d['first_connection'].get(fc, 0) + 1
+        d['recv_events'] += smp.get('recv_events') or 0
+        d['timeouts'] += smp.get('timeouts') or 0
+    return {'observed_by_transcript_and_operator': by}
